@@ -25,6 +25,7 @@ TARGET = os.path.join(VERIF, 'build', 'kani', 'target')
 MOUNTS = [
     ('lib.rs', 'support.rs', 'vk_support'),
     ('lib.rs', 'root.rs', 'vk_root'),
+    ('lib.rs', 'deps.rs', 'vk_deps'),
     ('graphics.rs', 'graphics.rs', 'vk_graphics'),
     ('batch.rs', 'batch.rs', 'vk_batch'),
     ('interface.rs', 'interface.rs', 'vk_interface'),
